@@ -61,3 +61,35 @@ def random_line(rng, width, height=32):
     r = np.random.RandomState(rng.randrange(2 ** 31))
     img = r.randint(0, 256, size=(height, width, 3)).astype(np.uint8)
     return img
+
+
+# ---------------------------------------------------------------------------------------------
+# a whole batch for parse_folder: config.ini, images, PAGE XML inputs
+# ---------------------------------------------------------------------------------------------
+
+def build_batch(root, rng, page_ids, with_decoder=False):
+    """Writes root/{config.ini, ocr.json, stub.pt.cpu, img/*.png, xml/*.xml}; returns the config path."""
+    import cv2
+    from pero_ocr.core.layout import PageLayout, RegionLayout, TextLine
+    os.makedirs(os.path.join(root, 'img'), exist_ok=True)
+    os.makedirs(os.path.join(root, 'xml'), exist_ok=True)
+    write_ocr_json(root)
+    cfg = ['[PAGE_PARSER]', 'RUN_LAYOUT_PARSER = no', 'RUN_LINE_CROPPER = yes', 'RUN_OCR = yes', 'RUN_DECODER = no', '',
+           '[LINE_CROPPER]', 'INTERP = 1', 'LINE_SCALE = 1', 'LINE_HEIGHT = 32', '',
+           '[OCR]', 'OCR_JSON = ./ocr.json', 'USE_CPU = yes', '']
+    with open(os.path.join(root, 'config.ini'), 'w') as f:
+        f.write('\n'.join(cfg))
+    r = np.random.RandomState(rng.randrange(2 ** 31))
+    for k, pid in enumerate(page_ids):
+        img = r.randint(0, 256, size=(260, 420, 3)).astype(np.uint8)
+        cv2.imwrite(os.path.join(root, 'img', pid + '.png'), img)
+        pl = PageLayout(id=pid, page_size=(260, 420))
+        reg = RegionLayout('r1', np.array([[5, 5], [415, 5], [415, 255], [5, 255]]))
+        for li in range(1 + (k % 3)):
+            y = 50 + 60 * li
+            reg.lines.append(TextLine(id='r1-l%03d' % li, baseline=np.array([[20, y], [200 + 60 * li, y]]),
+                                      polygon=np.array([[20, y - 22], [200 + 60 * li, y - 22], [200 + 60 * li, y + 9], [20, y + 9]]),
+                                      heights=[22, 9]))
+        pl.regions.append(reg)
+        pl.to_pagexml(os.path.join(root, 'xml', pid + '.xml'))
+    return os.path.join(root, 'config.ini')
